@@ -1,17 +1,513 @@
 /-
-  TE.Driver.Curve — protocol adapters of the Curve family (see TE/Driver/Count.lean for the conventions).
+  TE.Driver.Curve — protocol adapters of the Curve family (C05): unpack tensors,
+  perform the shape / parameter checks of the real `_input_check`s, call the typed
+  models of TE/Model/Curve.lean; `spec.*` oracles evaluate TE/Spec/Curve.lean.
+  The classes are cache-all: their state is the list of cached samples (one
+  record of rationals per sample) plus one marker per `update` call
+  (`BinaryAUROC.compute` distinguishes "never updated" from "no samples").
 -/
 import TE.Driver.Fam
+import TE.Model.Curve
+import TE.Spec.Curve
 namespace TE.Driver
-open TE
+open TE TE.Curve
 
-/-- (functional name, class name, configured family) — sufficient-statistic / cache-all classes. -/
+/-- column `j` of every row (transposition of a row-major matrix with `c` columns). -/
+def colsOf (rows : List (List Q)) (c : Nat) : List (List Q) :=
+  (List.range c).map fun j => rows.map (·.getD j 0)
+
+def curveAvg (a : Args) : Option Avg :=
+  match a.strD "average" "macro" with
+  | "macro" => some .macro
+  | "none" => some .none
+  | _ => none
+
+def onesLike (r : List Q) : List Q := r.map fun _ => 1
+
+def showPRCs (cs : List PRC) : String :=
+  " ".intercalate (cs.map (fun c => showVecX c.precision) ++ cs.map (fun c => showVecX c.recall)
+    ++ cs.map (fun c => showVecQ c.thresholds))
+
+def showPairs (rs : List (XQ × XQ)) : String :=
+  " ".intercalate (rs.map (fun r => showScalarX r.1) ++ rs.map (fun r => showScalarX r.2))
+
+def showAvg (avg : Avg) (r : List XQ) : String :=
+  match avg with
+  | .macro => showScalarX (r.headD .nan)
+  | .none => showVecX r
+
+def iot (a : Args) : Except Err (T × T) := liftP do
+  let i ← a.tensor "input"; let t ← a.tensor "target"; pure (i, t)
+
+/- ---------- checks of the real `_update_input_check`s ---------- -/
+
+def guardV (ok : Bool) : Except Err Unit := if ok then pure () else throw .value
+
+/-- `_binary_auroc_update_input_check` -/
+def binaryAurocCheck (i t : T) (w : Option T) (nt : Nat) : Except Err Unit :=
+  guardV (i.shape == t.shape
+    && (match w with | some w => w.shape == t.shape | none => true)
+    && (if nt == 1 then i.ndim ≤ 1 else !(i.ndim == 1 || i.shape.head? != some nt)))
+
+/-- `_binary_auprc_update_input_check` -/
+def binaryAuprcCheck (i t : T) (nt : Nat) : Except Err Unit :=
+  guardV (i.shape == t.shape
+    && (if nt == 1 then !((i.ndim == 2 && i.shape.head?.getD 0 > 1) || i.ndim > 2)
+        else i.shape.head? == some nt))
+
+/-- `_multiclass_{auroc,auprc,precision_recall_curve}_update_input_check` -/
+def multiclassCheck (i t : T) (nc : Option Nat) : Except Err Unit := do
+  if i.shape.head? != t.shape.head? then throw .value
+  if t.ndim != 1 then throw .value
+  if !(i.ndim == 2 && (nc.isNone || i.shape[1]? == nc)) then throw .value
+
+/-- `_multilabel_{auprc,precision_recall_curve}_update_input_check` -/
+def multilabelCheck (i t : T) (nl : Nat) : Except Err Unit := do
+  if i.shape != t.shape then throw .value
+  if i.ndim != 2 then throw .value
+  if i.shape[1]? != some nl then throw .value
+
+/-- `_binary_precision_recall_curve_update_input_check` -/
+def binaryPrCheck (i t : T) : Except Err Unit := do
+  if i.ndim != 1 then throw .value
+  if t.ndim != 1 then throw .value
+  if i.shape != t.shape then throw .value
+
+def minPrecisionCheck (p : Q) : Except Err Unit :=
+  if 0 ≤ p ∧ p ≤ 1 then pure () else throw .value
+
+/- ---------- computations on cached / passed samples ---------- -/
+
+/-- rows `(scores, targets, weights)` of the tasks → result string -/
+def outBinaryAuroc (scalar : Bool) (rows : List (List Q × List Q × List Q)) : Except Err String := do
+  if scalar then
+    match rows with
+    | [r] => let v ← binaryAuroc r.1 r.2.1 r.2.2; pure (showScalarX (.val v))
+    | _ => throw .other
+  else
+    let vs ← binaryAurocTasks rows
+    pure (showVecX (vs.map XQ.val))
+
+def outBinaryAuprc (scalar : Bool) (rows : List (List Q × List Q)) : Except Err String := do
+  if scalar then
+    match rows with
+    | [r] => let v ← binaryAuprc r.1 r.2; pure (showScalarX v)
+    | _ => throw .other
+  else
+    let vs ← binaryAuprcTasks rows
+    pure (showVecX vs)
+
+/- ---------- functionals ---------- -/
+
+def zip3 (a b c : List (List Q)) : List (List Q × List Q × List Q) := a.zip (b.zip c)
+
+def fnBinaryAuroc (a : Args) : Except Err String := do
+  let (i, t) ← iot a
+  let w ← liftP (a.tensor? "weight")
+  let nt := (← liftP (a.nat? "num_tasks")).getD 1
+  binaryAurocCheck i t w nt
+  let wr := match w with | some w => w.rows | none => i.rows.map onesLike
+  outBinaryAuroc (i.ndim == 1) (zip3 i.rows t.rows wr)
+
+def fnBinaryAuprc (a : Args) : Except Err String := do
+  let (i, t) ← iot a
+  let nt := (← liftP (a.nat? "num_tasks")).getD 1
+  binaryAuprcCheck i t nt
+  -- `input[i, :]` on a 1-D tensor
+  if !(nt == 1 && i.ndim == 1) && i.ndim == 1 then throw .index
+  outBinaryAuprc (nt == 1 && i.ndim == 1) (i.rows.zip t.rows)
+
+def fnMulticlassAuroc (a : Args) : Except Err String := do
+  let (i, t) ← iot a
+  let nc ← liftP (a.nat "num_classes")
+  match curveAvg a with
+  | none => throw .value
+  | some avg =>
+    if nc < 2 then throw .value
+    multiclassCheck i t (some nc)
+    let r ← multiclassAuroc (colsOf i.rows nc) t.data avg
+    pure (showAvg avg r)
+
+def fnMulticlassAuprc (a : Args) : Except Err String := do
+  let (i, t) ← iot a
+  let nc0 ← liftP (a.nat? "num_classes")
+  let nc ← match nc0 with
+    | some n => pure n
+    | none => match i.shape[1]? with | some n => pure n | none => throw .index
+  match curveAvg a with
+  | none => throw .value
+  | some avg =>
+    if nc < 2 then throw .value
+    multiclassCheck i t (some nc)
+    let r ← multiclassAuprc (colsOf i.rows nc) t.data avg
+    pure (showAvg avg r)
+
+def fnMultilabelAuprc (a : Args) : Except Err String := do
+  let (i, t) ← iot a
+  if i.ndim != 2 then throw .value
+  let nl := (← liftP (a.nat? "num_labels")).getD (i.shape[1]?.getD 0)
+  match curveAvg a with
+  | none => throw .value
+  | some avg =>
+    if nl < 2 then throw .value
+    multilabelCheck i t nl
+    let r ← multilabelAuprc ((colsOf i.rows nl).zip (colsOf t.rows nl)) avg
+    pure (showAvg avg r)
+
+def fnBinaryPrCurve (a : Args) : Except Err String := do
+  let (i, t) ← iot a
+  binaryPrCheck i t
+  let c ← binaryPrCurve i.data t.data
+  pure (showPRCs [c])
+
+def fnMulticlassPrCurve (a : Args) : Except Err String := do
+  let (i, t) ← iot a
+  let nc0 ← liftP (a.nat? "num_classes")
+  let nc0 := if nc0.isNone && i.ndim == 2 then i.shape[1]? else nc0
+  multiclassCheck i t nc0
+  let nc := nc0.getD 0
+  let cs ← multiclassPrCurve (colsOf i.rows nc) t.data
+  pure (showPRCs cs)
+
+def fnMultilabelPrCurve (a : Args) : Except Err String := do
+  let (i, t) ← iot a
+  if i.ndim != 2 then throw .value
+  let nl := (← liftP (a.nat? "num_labels")).getD (i.shape[1]?.getD 0)
+  multilabelCheck i t nl
+  let cs ← multilabelPrCurve ((colsOf i.rows nl).zip (colsOf t.rows nl))
+  pure (showPRCs cs)
+
+def fnBinaryRecallAtPrecision (a : Args) : Except Err String := do
+  let (i, t) ← iot a
+  let p ← liftP (a.rat "min_precision")
+  binaryPrCheck i t
+  minPrecisionCheck p
+  let r ← binaryRecallAtPrecision i.data t.data p
+  pure (showPairs [r])
+
+def fnMultilabelRecallAtPrecision (a : Args) : Except Err String := do
+  let (i, t) ← iot a
+  let p ← liftP (a.rat "min_precision")
+  let nl ← liftP (a.nat "num_labels")
+  multilabelCheck i t nl
+  minPrecisionCheck p
+  let rs ← multilabelRecallAtPrecision ((colsOf i.rows nl).zip (colsOf t.rows nl)) p
+  pure (showPairs rs)
+
+/- ---------- spec oracles (TE/Spec/Curve.lean; valid inputs only) ---------- -/
+
+open TE.Spec.Curve in
+def specBinaryAuroc (a : Args) : Except Err String := do
+  let (i, t) ← iot a
+  let w ← liftP (a.tensor? "weight")
+  let wr := match w with | some w => w.rows | none => i.rows.map onesLike
+  let vs := (zip3 i.rows t.rows wr).map fun r => XQ.val (auroc (samples r.1 r.2.1 r.2.2))
+  pure (if i.ndim == 1 then showScalarX (vs.headD .nan) else showVecX vs)
+
+def specAvg (avg : Avg) (per : List Q) : List XQ :=
+  match avg with
+  | .macro => [TE.Spec.Curve.mean per]
+  | .none => per.map XQ.val
+
+open TE.Spec.Curve in
+def specMulticlassAuroc (a : Args) : Except Err String := do
+  let (i, t) ← iot a
+  let nc ← liftP (a.nat "num_classes")
+  let avg := (curveAvg a).getD .macro
+  let per := (colsOf i.rows nc).zipIdx.map fun cc => auroc (ovrSamples cc.2 cc.1 t.data)
+  pure (showAvg avg (specAvg avg per))
+
+def showCurves (cs : List TE.Spec.Curve.Curve) : String :=
+  " ".intercalate (cs.map (fun c => showVecQ c.precision) ++ cs.map (fun c => showVecQ c.recall)
+    ++ cs.map (fun c => showVecQ c.thresholds))
+
+open TE.Spec.Curve in
+def specBinaryPrCurve (a : Args) : Except Err String := do
+  let (i, t) ← iot a
+  pure (showCurves [prCurve (posLS i.data t.data)])
+
+open TE.Spec.Curve in
+def specMulticlassPrCurve (a : Args) : Except Err String := do
+  let (i, t) ← iot a
+  let nc := (← liftP (a.nat? "num_classes")).getD (i.shape[1]?.getD 0)
+  pure (showCurves ((colsOf i.rows nc).zipIdx.map fun cc => prCurve (ovrLS cc.2 cc.1 t.data)))
+
+open TE.Spec.Curve in
+def specMultilabelPrCurve (a : Args) : Except Err String := do
+  let (i, t) ← iot a
+  let nl := (← liftP (a.nat? "num_labels")).getD (i.shape[1]?.getD 0)
+  pure (showCurves (((colsOf i.rows nl).zip (colsOf t.rows nl)).map fun c => prCurve (posLS c.1 c.2)))
+
+open TE.Spec.Curve in
+def specBinaryAuprc (a : Args) : Except Err String := do
+  let (i, t) ← iot a
+  let nt := (← liftP (a.nat? "num_tasks")).getD 1
+  let vs := (i.rows.zip t.rows).map fun r => XQ.val (auprc (posLS r.1 r.2))
+  pure (if nt == 1 && i.ndim == 1 then showScalarX (vs.headD .nan) else showVecX vs)
+
+open TE.Spec.Curve in
+def specMulticlassAuprc (a : Args) : Except Err String := do
+  let (i, t) ← iot a
+  let nc := (← liftP (a.nat? "num_classes")).getD (i.shape[1]?.getD 0)
+  let avg := (curveAvg a).getD .macro
+  let per := (colsOf i.rows nc).zipIdx.map fun cc => auprc (ovrLS cc.2 cc.1 t.data)
+  pure (showAvg avg (specAvg avg per))
+
+open TE.Spec.Curve in
+def specMultilabelAuprc (a : Args) : Except Err String := do
+  let (i, t) ← iot a
+  let nl := (← liftP (a.nat? "num_labels")).getD (i.shape[1]?.getD 0)
+  let avg := (curveAvg a).getD .macro
+  let per := ((colsOf i.rows nl).zip (colsOf t.rows nl)).map fun c => auprc (posLS c.1 c.2)
+  pure (showAvg avg (specAvg avg per))
+
+open TE.Spec.Curve in
+def specRP (l : List LS) (p : Q) : XQ × XQ :=
+  match recallAtPrecision l p with
+  | none => (.nan, .nan)
+  | some r => match bestThreshold l r with
+    | none => (.val r, .nan)
+    | some t => (.val r, .val (qabs t))
+
+open TE.Spec.Curve in
+def specBinaryRecallAtPrecision (a : Args) : Except Err String := do
+  let (i, t) ← iot a
+  let p ← liftP (a.rat "min_precision")
+  pure (showPairs [specRP (posLS i.data t.data) p])
+
+open TE.Spec.Curve in
+def specMultilabelRecallAtPrecision (a : Args) : Except Err String := do
+  let (i, t) ← iot a
+  let p ← liftP (a.rat "min_precision")
+  let nl := (← liftP (a.nat? "num_labels")).getD (i.shape[1]?.getD 0)
+  pure (showPairs (((colsOf i.rows nl).zip (colsOf t.rows nl)).map fun c => specRP (posLS c.1 c.2) p))
+
+/- ---------- cache-all classes ---------- -/
+
+/-- state entry: `none` marks one `update` call, `some r` is one cached sample. -/
+abbrev CacheState := List (Option (List Q))
+
+/-- a cache-all class: `stat` = validation + the samples of the batch (as records),
+    `out never records` = `compute()` (`never` = no `update` ever happened). -/
+def cachePack (stat : Args → Except Err (List (List Q)))
+    (out : Bool → List (List Q) → Except Err String) : Pack :=
+  ⟨CacheState, additive (listAcc (Option (List Q)))
+    (fun a => do let r ← stat a; pure (none :: r.map some))
+    (fun st => out st.isEmpty (st.filterMap id))⟩
+
+/-- one record per sample index: the entries of all `rows` at that index. -/
+def recordsOf (rows : List (List Q)) (n : Nat) : List (List Q) := colsOf rows n
+
+def lastDim (x : T) : Nat := x.shape.getLastD 0
+
+/-- `Pack` lives one universe up, so configuration parsing cannot use `do`-binds. -/
+def withNat? (cfg : Args) (k : String) (f : Option Nat → Except String Pack) : Except String Pack :=
+  match cfg.nat? k with | .ok v => f v | .error e => .error e
+def withNat (cfg : Args) (k : String) (f : Nat → Except String Pack) : Except String Pack :=
+  match cfg.nat k with | .ok v => f v | .error e => .error e
+def withRat (cfg : Args) (k : String) (f : Q → Except String Pack) : Except String Pack :=
+  match cfg.rat k with | .ok v => f v | .error e => .error e
+
+def packBinaryAuroc (cfg : Args) : Except String Pack :=
+  withNat? cfg "num_tasks" fun nt0 =>
+  let nt := nt0.getD 1
+  .ok <| cachePack
+    (fun a => do
+      let (i, t) ← iot a
+      let w ← liftP (a.tensor? "weight")
+      binaryAurocCheck i t w nt          -- (the class passes `ones_like(input)` when weight is None)
+      let wr := match w with | some w => w.rows | none => i.rows.map onesLike
+      pure (recordsOf (i.rows ++ t.rows ++ wr) (lastDim i)))
+    (fun never recs =>
+      if never then .error .assertion else
+      let cols := colsOf recs (3 * nt)
+      outBinaryAuroc (nt == 1) (zip3 (cols.take nt) ((cols.drop nt).take nt) (cols.drop (2 * nt))))
+
+def packBinaryAuprc (cfg : Args) : Except String Pack :=
+  withNat? cfg "num_tasks" fun nt0 =>
+  let nt := nt0.getD 1
+  .ok <| cachePack
+    (fun a => do
+      let (i, t) ← iot a
+      binaryAuprcCheck i t nt
+      pure (recordsOf (i.rows ++ t.rows) (lastDim i)))
+    (fun never recs =>
+      if never then .error .runtime else           -- `torch.cat([])`
+      let cols := colsOf recs (2 * nt)
+      outBinaryAuprc (nt == 1) ((cols.take nt).zip (cols.drop nt)))
+
+/-- records `[x₁ … x_C, label]` -/
+def mcRecords (i t : T) : List (List Q) := (i.rows.zip t.data).map fun p => p.1 ++ [p.2]
+
+/-- records `[x₁ … x_L, t₁ … t_L]` -/
+def mlRecords (i t : T) : List (List Q) := (i.rows.zip t.rows).map fun p => p.1 ++ p.2
+
+def mcSplit (recs : List (List Q)) (nc : Nat) : List (List Q) × List Q :=
+  let cols := colsOf recs (nc + 1)
+  (cols.take nc, (cols.drop nc).headD [])
+
+def mlSplit (recs : List (List Q)) (nl : Nat) : List (List Q × List Q) :=
+  let cols := colsOf recs (2 * nl)
+  (cols.take nl).zip (cols.drop nl)
+
+def packMulticlassAuroc (cfg : Args) : Except String Pack :=
+  withNat cfg "num_classes" fun nc =>
+  let avg := curveAvg cfg
+  let ok := avg.isSome && nc ≥ 2            -- constructor `_multiclass_auroc_param_check`
+  let avg := avg.getD .macro
+  .ok <| cachePack
+    (fun a => do
+      if !ok then throw .value
+      let (i, t) ← iot a
+      multiclassCheck i t (some nc)
+      pure (mcRecords i t))
+    (fun never recs => do
+      if !ok then throw .value
+      if never then throw .assertion
+      let (cols, labs) := mcSplit recs nc
+      let r ← multiclassAuroc cols labs avg
+      pure (showAvg avg r))
+
+def packMulticlassAuprc (cfg : Args) : Except String Pack :=
+  withNat cfg "num_classes" fun nc =>
+  let avg := curveAvg cfg
+  let ok := avg.isSome && nc ≥ 2
+  let avg := avg.getD .macro
+  .ok <| cachePack
+    (fun a => do
+      if !ok then throw .value
+      let (i, t) ← iot a
+      multiclassCheck i t (some nc)
+      pure (mcRecords i t))
+    (fun never recs => do
+      if !ok then throw .value
+      if never then throw .runtime
+      let (cols, labs) := mcSplit recs nc
+      let r ← multiclassAuprc cols labs avg
+      pure (showAvg avg r))
+
+def packMultilabelAuprc (cfg : Args) : Except String Pack :=
+  withNat cfg "num_labels" fun nl =>
+  let avg := curveAvg cfg
+  let ok := avg.isSome && nl ≥ 2
+  let avg := avg.getD .macro
+  .ok <| cachePack
+    (fun a => do
+      if !ok then throw .value
+      let (i, t) ← iot a
+      multilabelCheck i t nl
+      pure (mlRecords i t))
+    (fun never recs => do
+      if !ok then throw .value
+      if never then throw .runtime
+      let r ← multilabelAuprc (mlSplit recs nl) avg
+      pure (showAvg avg r))
+
+def packBinaryPrCurve (_cfg : Args) : Except String Pack :=
+  .ok <| cachePack
+    (fun a => do
+      let (i, t) ← iot a
+      binaryPrCheck i t
+      pure (recordsOf [i.data, t.data] (lastDim i)))
+    (fun never recs => do
+      if never then throw .runtime
+      let cols := colsOf recs 2
+      let c ← binaryPrCurve (cols.headD []) ((cols.drop 1).headD [])
+      pure (showPRCs [c]))
+
+def packMulticlassPrCurve (cfg : Args) : Except String Pack :=
+  withNat? cfg "num_classes" fun nc0 =>
+  .ok <| cachePack
+    (fun a => do
+      let (i, t) ← iot a
+      multiclassCheck i t nc0
+      pure (mcRecords i t))
+    (fun never recs => do
+      if never then throw .runtime
+      let nc := nc0.getD ((recs.headD []).length - 1)
+      let (cols, labs) := mcSplit recs nc
+      let cs ← multiclassPrCurve cols labs
+      pure (showPRCs cs))
+
+def packMultilabelPrCurve (cfg : Args) : Except String Pack :=
+  withNat cfg "num_labels" fun nl =>
+  .ok <| cachePack
+    (fun a => do
+      let (i, t) ← iot a
+      multilabelCheck i t nl
+      pure (mlRecords i t))
+    (fun never recs => do
+      if never then throw .runtime
+      let cs ← multilabelPrCurve (mlSplit recs nl)
+      pure (showPRCs cs))
+
+def packBinaryRecallAtPrecision (cfg : Args) : Except String Pack :=
+  withRat cfg "min_precision" fun p =>
+  .ok <| cachePack
+    (fun a => do
+      let (i, t) ← iot a
+      binaryPrCheck i t
+      minPrecisionCheck p
+      pure (recordsOf [i.data, t.data] (lastDim i)))
+    (fun never recs => do
+      if never then throw .runtime
+      let cols := colsOf recs 2
+      let r ← binaryRecallAtPrecision (cols.headD []) ((cols.drop 1).headD []) p
+      pure (showPairs [r]))
+
+def packMultilabelRecallAtPrecision (cfg : Args) : Except String Pack :=
+  withRat cfg "min_precision" fun p =>
+  withNat cfg "num_labels" fun nl =>
+  .ok <| cachePack
+    (fun a => do
+      let (i, t) ← iot a
+      multilabelCheck i t nl
+      minPrecisionCheck p
+      pure (mlRecords i t))
+    (fun never recs => do
+      if never then throw .runtime
+      let rs ← multilabelRecallAtPrecision (mlSplit recs nl) p
+      pure (showPairs rs))
+
+/-- (functional name, class name, configured family) — none: the curve classes are cache-all, see `curvePacks`. -/
 def curveFams : List (String × String × (Args → Except String Fam)) := []
 
-/-- (class name, packaged class model) — classes that are not `additive` (own state machine). -/
-def curvePacks : List (String × (Args → Except String Pack)) := []
+/-- (class name, packaged class model) — cache-all classes (`additive (listAcc _)`). -/
+def curvePacks : List (String × (Args → Except String Pack)) := [
+  ("BinaryAUROC", packBinaryAuroc),
+  ("MulticlassAUROC", packMulticlassAuroc),
+  ("BinaryAUPRC", packBinaryAuprc),
+  ("MulticlassAUPRC", packMulticlassAuprc),
+  ("MultilabelAUPRC", packMultilabelAuprc),
+  ("BinaryPrecisionRecallCurve", packBinaryPrCurve),
+  ("MulticlassPrecisionRecallCurve", packMulticlassPrCurve),
+  ("MultilabelPrecisionRecallCurve", packMultilabelPrCurve),
+  ("BinaryRecallAtFixedPrecision", packBinaryRecallAtPrecision),
+  ("MultilabelRecallAtFixedPrecision", packMultilabelRecallAtPrecision)
+]
 
-/-- (request name, handler) — functionals without a class twin and `spec.*` oracles. -/
-def curveFns : List (String × (Args → Except Err String)) := []
+/-- (request name, handler) — the functionals and the `spec.*` oracles. -/
+def curveFns : List (String × (Args → Except Err String)) := [
+  ("binary_auroc", fnBinaryAuroc),
+  ("multiclass_auroc", fnMulticlassAuroc),
+  ("binary_auprc", fnBinaryAuprc),
+  ("multiclass_auprc", fnMulticlassAuprc),
+  ("multilabel_auprc", fnMultilabelAuprc),
+  ("binary_precision_recall_curve", fnBinaryPrCurve),
+  ("multiclass_precision_recall_curve", fnMulticlassPrCurve),
+  ("multilabel_precision_recall_curve", fnMultilabelPrCurve),
+  ("binary_recall_at_fixed_precision", fnBinaryRecallAtPrecision),
+  ("multilabel_recall_at_fixed_precision", fnMultilabelRecallAtPrecision),
+  ("spec.binary_auroc", specBinaryAuroc),
+  ("spec.multiclass_auroc", specMulticlassAuroc),
+  ("spec.binary_auprc", specBinaryAuprc),
+  ("spec.multiclass_auprc", specMulticlassAuprc),
+  ("spec.multilabel_auprc", specMultilabelAuprc),
+  ("spec.binary_precision_recall_curve", specBinaryPrCurve),
+  ("spec.multiclass_precision_recall_curve", specMulticlassPrCurve),
+  ("spec.multilabel_precision_recall_curve", specMultilabelPrCurve),
+  ("spec.binary_recall_at_fixed_precision", specBinaryRecallAtPrecision),
+  ("spec.multilabel_recall_at_fixed_precision", specMultilabelRecallAtPrecision)
+]
 
 end TE.Driver
